@@ -88,4 +88,61 @@ def Consistent (s : St) : Prop :=
 /-- keys of live vertices are unique -/
 def KeysUnique (s : St) : Prop := (s.verts.map (·.1)).Nodup
 
+/-! ### the extended machine: coordinates that cannot be keyed
+
+The real grid (`HashGridIndex`, cell size 1e-10) cannot put a coordinate into a bucket when its
+quotient by the cell size is too large to be keyed exactly (`|c / cell| ≥ 2^53`). The real code is
+conservative at two sites:
+ * INSERTING an un-keyable point DISABLES the whole grid (every later query falls back to the
+   linear scan) — modelled as `idx := none`;
+ * a QUERY at an un-keyable point reports "index not used", so the caller falls back to the scan.
+The machine is parameterised by an ARBITRARY predicate `keyable : Pt → Bool` (nothing is assumed
+about which points are keyable).
+
+`seed` (reading chosen): `ensure_spatial_index_seeded` builds the grid by inserting every live
+vertex; inserting an un-keyable one disables the grid. So: if a grid exists nothing changes (as in
+`step`); if there is none and EVERY live vertex is keyable the full grid is built (as in `step`);
+if some live vertex is un-keyable the result is NO grid (`idx` stays `none`). This is the
+conservative reading: a grid never holds, and never silently omits, an un-keyable live vertex.
+A disabled grid of the real code and "no grid" are the same thing for the duplicate check (both
+scan), so both are `idx = none` here; the model allows a later `seed` to build a grid again once
+the un-keyable vertices are gone (a superset of the real behaviours). -/
+namespace Keyed
+
+/-- `duplicate_coordinates_error` with the fallback: the grid answers only if it exists AND the
+query point can be keyed; otherwise the linear scan answers -/
+def isDupK (keyable : Pt → Bool) (s : St) (q : Pt) : Bool :=
+  match s.idx with
+  | some es => if keyable q then gridDup s es q else scanDup s q
+  | none => scanDup s q
+
+def stepK (keyable : Pt → Bool) (s : St) : Op → St
+  | .seed => match s.idx with
+    | some _ => s
+    | none =>
+      if s.verts.all (fun v => keyable v.2) then { s with idx := some s.verts }
+      else { s with idx := none }         -- some live vertex cannot be keyed: no grid
+  | .insert k p =>
+    if isDupK keyable s p || s.verts.any (·.1 == k) then s      -- refused: nothing changes
+    else if keyable p then { s with verts := (k, p) :: s.verts, idx := s.idx.map ((k, p) :: ·) }
+    else { s with verts := (k, p) :: s.verts, idx := none }     -- un-keyable: the grid is DROPPED
+  | .remove k => { s with verts := s.verts.filter (·.1 != k) }
+  | .editInsert k p =>
+    if s.verts.any (·.1 == k) then s else { s with verts := (k, p) :: s.verts, idx := none }
+  | .editRemove k => { s with verts := s.verts.filter (·.1 != k), idx := none }
+  | .dropIndex => { s with idx := none }
+  | .clone => s
+  | .rebuild b => let vs := rekey b s.verts; { s with verts := vs, idx := s.idx.map (fun _ => vs) }
+
+def runK (keyable : Pt → Bool) (s : St) (ops : List Op) : St := ops.foldl (stepK keyable) s
+
+/-- the invariant of the extended machine: no grid, or (every live vertex has its own entry in the
+grid AND every live vertex is keyable) -/
+def ConsistentK (keyable : Pt → Bool) (s : St) : Prop :=
+  match s.idx with
+  | none => True
+  | some es => (∀ v ∈ s.verts, v ∈ es) ∧ (∀ v ∈ s.verts, keyable v.2 = true)
+
+end Keyed
+
 end DM.DupCache
